@@ -9,6 +9,8 @@ namespace {
 
 static uint64_t ncases(Ctx& c) { return (uint64_t)c.param_int("cases", c.tier == "thorough" ? 6000000 : 250000); }
 
+// field separator of the flat result strings is ';' -- values never contain it (the violation key is the name of the first differing field)
+static Str escv(const Str& x) { Str e = esc(x), o; for (char ch : e) { if (ch == ';') o += "\\x3b"; else o.push_back(ch); } return o; }
 struct ParseRes { int rc; long errOff; Str view; };
 template <class X> ParseRes do_parse(const Str& s, int entry) {
     typedef typename X::Char Char;
@@ -18,11 +20,11 @@ template <class X> ParseRes do_parse(const Str& s, int entry) {
     { LibScope ls; if (entry == 0) { r.rc = X::ParseUriEx(&st, buf.data(), buf.data() + w.size()); ep = st.errorPos; } else if (entry == 1) r.rc = X::ParseSingleUri(&u, buf.data(), &ep); else r.rc = X::ParseSingleUriEx(&u, buf.data(), buf.data() + w.size(), &ep); }
     if (r.rc != URI_SUCCESS) { if (ep) r.errOff = (long)(ep - buf.data()); { LibScope ls; X::FreeUriMembers(&u); } return r; }
     ObjView v = read_uri<X>(u, buf.data(), w.size());
-    r.view = v.c.describe() + fmt(" abs=%d owner=%d nseg=%zu off=%ld,%ld,%ld,%ld,%ld,%ld,%ld,%ld,%ld,%ld,%ld,%ld", (int)v.abs, (int)v.owner, v.segs.size(), v.oScheme.first, v.oScheme.after, v.oUser.first, v.oUser.after,
+    r.view = escv(v.c.describe()) + fmt(" abs=%d owner=%d nseg=%zu off=%ld,%ld,%ld,%ld,%ld,%ld,%ld,%ld,%ld,%ld,%ld,%ld", (int)v.abs, (int)v.owner, v.segs.size(), v.oScheme.first, v.oScheme.after, v.oUser.first, v.oUser.after,
                                  v.oHost.first, v.oHost.after, v.oPort.first, v.oPort.after, v.oQuery.first, v.oQuery.after, v.oFrag.first, v.oFrag.after) + " ip=" + hexs(v.c.ip.data(), v.c.ip.size());
     for (auto& o : v.oSegs) r.view += fmt(" [%ld,%ld)", o.first, o.after);
     int need = -1, wr = -1; { LibScope ls; X::ToStringCharsRequired(&u, &need); }
-    if (need >= 0) { Char* out = (Char*)malloc(((size_t)need + 1) * sizeof(Char)); int trc; { LibScope ls; trc = X::ToString(out, &u, need + 1, &wr); } r.view += fmt(" tostring rc=%d need=%d written=%d text=", trc, need, wr) + (trc == 0 ? esc(narrow<X>(out, out + need)) : Str()); free(out);
+    if (need >= 0) { Char* out = (Char*)malloc(((size_t)need + 1) * sizeof(Char)); int trc; { LibScope ls; trc = X::ToString(out, &u, need + 1, &wr); } r.view += fmt(" tostring rc=%d need=%d written=%d text=", trc, need, wr) + (trc == 0 ? escv(narrow<X>(out, out + need)) : Str()); free(out);
         if (need > 0) { Char* o2 = (Char*)malloc((size_t)need * sizeof(Char)); int w2 = -1; int t2; { LibScope ls; t2 = X::ToString(o2, &u, need, &w2); } r.view += fmt(" short rc=%d written=%d", t2, w2); free(o2); } }
     unsigned mr; { LibScope ls; mr = X::NormalizeSyntaxMaskRequired(&u); } r.view += fmt(" maskRequired=0x%x", mr);
     { LibScope ls; X::FreeUriMembers(&u); }
@@ -32,19 +34,19 @@ template <class X> ParseRes do_parse(const Str& s, int entry) {
 template <class X> Str do_ops(const Str& a, const Str& b, unsigned mask, int flag) {
     UriBox<X> A, B; Str out;
     if (A.parse(a) != URI_SUCCESS || B.parse(b) != URI_SUCCESS) return "unparsable";
-    { UriBox<X> D; int rc; { LibScope ls; rc = X::AddBaseUriEx(&D.u, &A.u, &B.u, flag ? URI_RESOLVE_IDENTICAL_SCHEME_COMPAT : URI_RESOLVE_STRICTLY); } D.live = rc == 0; Str t; if (D.live) D.str(&t); out += fmt("addbase rc=%d text=%s;", rc, esc(t).c_str()); }
-    { UriBox<X> D; int rc; { LibScope ls; rc = X::RemoveBaseUri(&D.u, &A.u, &B.u, flag); } D.live = rc == 0; Str t; if (D.live) D.str(&t); out += fmt("removebase rc=%d text=%s;", rc, esc(t).c_str()); }
+    { UriBox<X> D; int rc; { LibScope ls; rc = X::AddBaseUriEx(&D.u, &A.u, &B.u, flag ? URI_RESOLVE_IDENTICAL_SCHEME_COMPAT : URI_RESOLVE_STRICTLY); } D.live = rc == 0; Str t; if (D.live) D.str(&t); out += fmt("addbase rc=%d text=%s;", rc, escv(t).c_str()); }
+    { UriBox<X> D; int rc; { LibScope ls; rc = X::RemoveBaseUri(&D.u, &A.u, &B.u, flag); } D.live = rc == 0; Str t; if (D.live) D.str(&t); out += fmt("removebase rc=%d text=%s;", rc, escv(t).c_str()); }
     { int e; { LibScope ls; e = X::EqualsUri(&A.u, &B.u); } out += fmt("equals=%d;", e); }
-    { UriBox<X> C; C.parse(a); int rc = C.make_owner(); Str t; C.str(&t); out += fmt("makeowner rc=%d text=%s;", rc, esc(t).c_str()); rc = C.normalize(mask); C.str(&t); out += fmt("normalize-owned rc=%d text=%s;", rc, esc(t).c_str()); }
-    { int rc = A.normalize(mask); Str t; A.str(&t); unsigned m2; { LibScope ls; m2 = X::NormalizeSyntaxMaskRequired(&A.u); } out += fmt("normalize rc=%d text=%s mask-after=0x%x;", rc, esc(t).c_str(), m2); }
+    { UriBox<X> C; C.parse(a); int rc = C.make_owner(); Str t; C.str(&t); out += fmt("makeowner rc=%d text=%s;", rc, escv(t).c_str()); rc = C.normalize(mask); C.str(&t); out += fmt("normalize-owned rc=%d text=%s;", rc, escv(t).c_str()); }
+    { int rc = A.normalize(mask); Str t; A.str(&t); unsigned m2; { LibScope ls; m2 = X::NormalizeSyntaxMaskRequired(&A.u); } out += fmt("normalize rc=%d text=%s mask-after=0x%x;", rc, escv(t).c_str(), m2); }
     return out;
 }
 
 template <class X> Str do_strings(const Str& s, int plus, int nb, int br) {
     typedef typename X::Char Char; Str out;
     typename X::S w = widen<X>(s);
-    { size_t bound = (nb ? 6 : 3) * s.size() + 1; Char* o = (Char*)malloc(bound * sizeof(Char)); Char* e; { LibScope ls; e = X::EscapeEx(w.data(), w.data() + w.size(), o, plus, nb); } out += fmt("escape off=%ld text=%s;", e ? (long)(e - o) : -1L, e ? esc(narrow<X>(o, e)).c_str() : ""); free(o); }
-    { Char* io = (Char*)malloc((s.size() + 1) * sizeof(Char)); for (size_t i = 0; i < s.size(); i++) io[i] = w[i]; io[s.size()] = 0; const Char* e; { LibScope ls; e = X::UnescapeInPlaceEx(io, plus, (UriBreakConversion)br); } out += fmt("unescape off=%ld text=%s;", e ? (long)(e - io) : -1L, e ? esc(narrow<X>(io, e)).c_str() : ""); free(io); }
+    { size_t bound = (nb ? 6 : 3) * s.size() + 1; Char* o = (Char*)malloc(bound * sizeof(Char)); Char* e; { LibScope ls; e = X::EscapeEx(w.data(), w.data() + w.size(), o, plus, nb); } out += fmt("escape off=%ld text=%s;", e ? (long)(e - o) : -1L, e ? escv(narrow<X>(o, e)).c_str() : ""); free(o); }
+    { Char* io = (Char*)malloc((s.size() + 1) * sizeof(Char)); for (size_t i = 0; i < s.size(); i++) io[i] = w[i]; io[s.size()] = 0; const Char* e; { LibScope ls; e = X::UnescapeInPlaceEx(io, plus, (UriBreakConversion)br); } out += fmt("unescape off=%ld text=%s;", e ? (long)(e - io) : -1L, e ? escv(narrow<X>(io, e)).c_str() : ""); free(io); }
     // filename functions: exact documented sizes
     {
         std::vector<Char> name(w.begin(), w.end()); name.push_back(0); size_t n = s.size();
@@ -52,20 +54,20 @@ template <class X> Str do_strings(const Str& s, int plus, int nb, int br) {
             bool absolute = ux ? (n && s[0] == '/') : ((n >= 2 && s[1] == ':') || (n >= 2 && s[0] == '\\' && s[1] == '\\'));
             size_t bound = (absolute ? (ux ? 7 : 8) : 0) + 3 * n + 1;
             Char* o = (Char*)malloc(bound * sizeof(Char)); int rc; { LibScope ls; rc = ux ? X::UnixFilenameToUriString(name.data(), o) : X::WindowsFilenameToUriString(name.data(), o); }
-            size_t len = xstrlen<X>(o); out += fmt("tofile%d rc=%d text=%s;", ux, rc, esc(narrow<X>(o, o + len)).c_str());
+            size_t len = xstrlen<X>(o); out += fmt("tofile%d rc=%d text=%s;", ux, rc, escv(narrow<X>(o, o + len)).c_str());
             Char* bk = (Char*)malloc((len + 3) * sizeof(Char)); { LibScope ls; rc = ux ? X::UriStringToUnixFilename(o, bk) : X::UriStringToWindowsFilename(o, bk); }
-            out += fmt("fromfile%d rc=%d text=%s;", ux, rc, esc(narrow<X>(bk, bk + xstrlen<X>(bk))).c_str()); free(bk); free(o);
+            out += fmt("fromfile%d rc=%d text=%s;", ux, rc, escv(narrow<X>(bk, bk + xstrlen<X>(bk))).c_str()); free(bk); free(o);
         }
     }
     // query: dissect the string, compose the list again
     {
         typename X::QList* list = nullptr; int count = -1; int rc; { LibScope ls; rc = X::DissectQueryMallocEx(&list, &count, w.data(), w.data() + w.size(), plus, (UriBreakConversion)br); }
-        out += fmt("dissect rc=%d count=%d;", rc, count);
+        out += fmt("dissect rc=%d count=%d;dissected-items=", rc, count);
         if (rc == 0 && list) {
-            for (auto* l = list; l; l = l->next) out += "(" + esc(narrow<X>(l->key, l->key + xstrlen<X>(l->key))) + "=" + (l->value ? esc(narrow<X>(l->value, l->value + xstrlen<X>(l->value))) : Str("<null>")) + ")";
-            int req = -1; { LibScope ls; rc = X::ComposeQueryCharsRequiredEx(list, &req, plus, nb); } out += fmt(" required rc=%d %d;", rc, req);
-            if (req >= 0) { Char* o = (Char*)malloc(((size_t)req + 1) * sizeof(Char)); int wr = -1; { LibScope ls; rc = X::ComposeQueryEx(o, list, req + 1, &wr, plus, nb); } out += fmt("compose rc=%d written=%d text=%s;", rc, wr, rc == 0 ? esc(narrow<X>(o, o + xstrlen<X>(o))).c_str() : ""); free(o); }
-            Char* m = nullptr; { LibScope ls; rc = X::ComposeQueryMallocEx(&m, list, plus, nb); } out += fmt("composemalloc rc=%d text=%s;", rc, rc == 0 ? esc(narrow<X>(m, m + xstrlen<X>(m))).c_str() : ""); if (rc == 0) free(m);
+            for (auto* l = list; l; l = l->next) out += "(" + escv(narrow<X>(l->key, l->key + xstrlen<X>(l->key))) + "=" + (l->value ? escv(narrow<X>(l->value, l->value + xstrlen<X>(l->value))) : Str("<null>")) + ")";
+            int req = -1; { LibScope ls; rc = X::ComposeQueryCharsRequiredEx(list, &req, plus, nb); } out += fmt(";required rc=%d %d;", rc, req);
+            if (req >= 0) { Char* o = (Char*)malloc(((size_t)req + 1) * sizeof(Char)); int wr = -1; { LibScope ls; rc = X::ComposeQueryEx(o, list, req + 1, &wr, plus, nb); } out += fmt("compose rc=%d written=%d text=%s;", rc, wr, rc == 0 ? escv(narrow<X>(o, o + xstrlen<X>(o))).c_str() : ""); free(o); }
+            Char* m = nullptr; { LibScope ls; rc = X::ComposeQueryMallocEx(&m, list, plus, nb); } out += fmt("composemalloc rc=%d text=%s;", rc, rc == 0 ? escv(narrow<X>(m, m + xstrlen<X>(m))).c_str() : ""); if (rc == 0) free(m);
         }
         { LibScope ls; X::FreeQueryList(list); }
     }
